@@ -678,3 +678,58 @@ def r_dispatch_names_closed(ctx, repo, modules):
     rule.ok('%d functions' % n, 'no call through a computed method name')
     rule.instances += n
     return rule
+
+
+# ----------------------------------------------------------------------------------------- R-ROOT-PLAIN-OPEN-ENDED
+def r_root_plain_open_ended(ctx, repo):
+    """The scanner continues a plain scalar over the following lines until a document marker (at the root of a document
+    there is no indentation that could end it), so a `%YAML` / `%TAG` line written after a root-level plain scalar would be
+    read as a continuation of that scalar.  The emitter prevents this with its open_ended flag, which expect_document_start
+    consumes (R-DIRECTIVE-AFTER-OPEN-ENDED).  This rule decides the producing side: with self.root_context true, every way
+    of writing a plain scalar (write_plain itself, or process_scalar around its call) sets self.open_ended to True before
+    control returns to the state machine."""
+    from .rules_emit import Scenario
+    rule = ctx.rule('R-ROOT-PLAIN-OPEN-ENDED', 'a plain scalar written at the root of a document marks the document open-ended '
+                                               '(self.open_ended = True on every path with self.root_context true)')
+    E = repo.cls('emitter.Emitter')
+    wp, ps = E.methods.get('write_plain'), E.methods.get('process_scalar')
+    if wp is None or ps is None:
+        raise AnalysisError('Emitter.write_plain / process_scalar have vanished')
+
+    def sets(f):
+        S = Scenario(repo, f)
+        me = f.params[0]
+        nodes = [n for n in S.cfg.nodes if isinstance(n.ast, ast.Assign) and any(A.is_attr(t, me, 'open_ended') for t in n.ast.targets)
+                 and isinstance(n.ast.value, ast.Constant) and n.ast.value.value is True]
+        return S, nodes
+    S, marks = sets(wp)
+    inside = False
+    if marks:
+        r = S.reach(table={'self.root_context': True}, blocked=marks)
+        inside = not any(x in r for x in S.cfg.normal_exits())
+    if inside:
+        rule.ok(wp.loc(marks[0].ast), 'write_plain sets open_ended on every path when root_context is true')
+        return rule
+    # around the call, in process_scalar
+    S2, marks2 = sets(ps)
+    calls = [n for n in S2.cfg.nodes if n.ast is not None and any(
+        isinstance(x, ast.Call) and isinstance(x.func, ast.Attribute) and x.func.attr == 'write_plain' for x in own_exprs(n))]
+    if not calls:
+        raise AnalysisError('process_scalar: the call of write_plain was not found')
+    ok = bool(marks2)
+    if ok:
+        for c in calls:
+            before = c not in S2.reach(table={'self.root_context': True}, blocked=marks2)
+            starts = [m for (m, lab) in S2.cfg.succ[c] if lab != 'exc']
+            after_r = S2.reach(table={'self.root_context': True}, blocked=marks2, starts=starts)
+            after = not any(x in after_r for x in S2.cfg.normal_exits())
+            ok = ok and (before or after)
+    if ok:
+        rule.ok(ps.loc(marks2[0].ast), 'process_scalar sets open_ended around every write_plain call when root_context is true')
+    else:
+        rule.fail('%s|root-plain' % wp.qualname, wp.module.rel, wp.node.lineno, wp.qualname, 'def write_plain',
+                  'a plain scalar can be written at the root of a document (self.root_context true) without self.open_ended being '
+                  'set: the next document\'s %YAML / %TAG directive is then written directly after it, and the scanner reads the '
+                  'directive line as a continuation of the plain scalar (dump_all(["foo", 12], version=(1, 1)) loads as '
+                  '["foo %YAML 1.1", ...])')
+    return rule
